@@ -35,6 +35,9 @@ type Session struct {
 	Data    []byte
 	Pending int64 // -1 = no start-offset check pending
 	Dead    bool  // committed, cancelled or failed: no further use is modelled
+	// Committed is the digest of this session's successful commit (the one further use that is modelled:
+	// committing again, e.g. a retried final request, after which the blob has to be there again)
+	Committed string
 }
 
 type Repo struct {
@@ -647,6 +650,21 @@ func (m *Model) Apply(op *Op, out *Outcome) []Complaint {
 		if s == nil {
 			break
 		}
+		if s.Committed != "" {
+			// a second commit of a session that was committed successfully: a registry may refuse it; if
+			// it reports success, the digest is the content's and the blob is (again) in the repository
+			if !out.OK {
+				break
+			}
+			if Digest(s.Data) != op.Digest {
+				v.add("semantics", "recommit-accepted-wrong-digest", fmt.Sprintf("%s: a repeated commit under a digest that is not the content's succeeded", op))
+				break
+			}
+			v.expectDesc(out, op.Digest, int64(len(s.Data)), "")
+			m.touch(s.Repo).Blobs[op.Digest] = s.Data
+			m.touch(s.Repo).addMT(op.Digest, map[string]bool{"*": true})
+			break
+		}
 		s.Dead = true
 		if Digest(s.Data) != op.Digest {
 			v.expectFail(out, "digest-mismatch", "code", "DIGEST_INVALID")
@@ -654,6 +672,7 @@ func (m *Model) Apply(op *Op, out *Outcome) []Complaint {
 		}
 		if v.expectOK(out) {
 			v.expectDesc(out, op.Digest, int64(len(s.Data)), "")
+			s.Committed = op.Digest
 		}
 		m.touch(s.Repo).Blobs[op.Digest] = s.Data
 		m.touch(s.Repo).addMT(op.Digest, map[string]bool{"*": true})
